@@ -3,7 +3,8 @@
     [Z], [nat] stay as extracted inductives. *)
 Require Extraction.
 Require Import ExtrOcamlBasic.
-From PT Require Import Bits PrefixN Machine Trie Views SetOps Inst EntryApi InstEntry.
+From PT Require Import Bits PrefixN Machine Trie Views SetOps Inst EntryApi InstEntry ParModel InstPar.
 Separate Extraction Bits PrefixN Machine Trie Views SetOps Inst InstEntry.t_entry_chain InstEntry.t_occupied_reuse InstEntry.t_closure_panics
+  InstPar.t_alias_report InstPar.t_par_jobs InstPar.t_par_result
   BinNat.N.of_nat BinNat.N.to_nat BinInt.Z.of_N BinInt.Z.to_N BinNat.N.testbit BinNat.N.succ_double BinNat.N.double
   BinNat.N.div BinNat.N.modulo BinInt.Z.modulo BinInt.Z.pow BinInt.Z.ltb BinInt.Z.add BinInt.Z.sub BinNat.N.compare BinNat.N.ltb BinNat.N.leb BinNat.N.eqb.
